@@ -175,7 +175,7 @@ fn run_e1(prop: &str, tier: &str) -> i32 {
         "exhaustive": !out.capped,
         "distinct_outcome_classes": out.distinct.get("outcomes"),
         "rule": "state = real substitution set reached by <= d successful real unify calls (exact fingerprint); transition = one ordered pair of the term universe unified by the real code from that state, in both orders, judged against the reference unifier; every transition is an execution of the implementation",
-        "bounds": {"tier": tier, "spaces": "full: priors depth 1 over the small universe x all ordered pairs of the full universe in every encoding (canonical, renamed, parsed+renamed); alias: depth 3 (quick) / 4 (thorough) over {$X,$Y,$Z,$_,a,f($Y),[a|$Z]}; func: function terms x partners (C13); thorough adds depth-2 spaces"},
+        "bounds": {"tier": tier, "spaces": "full: priors depth 1 over the small universe x all ordered pairs of the full universe in every encoding (canonical, renamed, parsed+renamed); alias: depth 3 (quick) / 4 (thorough) over {$X,$Y,$Z,$_,a,f($Y),[a|$Z]}; func: function terms x partners (C13); thorough adds: all ordered pairs of the full universe from every state reachable in <= 3 unifications over the small universe (that set of states is closed at depth 3: depth 4 adds none, see counters space.*.prior_states)"},
     });
     let verdict = report::Verdict {
         property: prop.to_string(),
